@@ -27,8 +27,8 @@ func checkModelBoundsNotOverridden(r *Run, pkgs ...*packages.Package) {
 					continue
 				}
 				// locals assigned from a dereference of a numeric pointer field of a cypher model type
-				fromModel := map[types.Object]token.Pos{}
-				modelField := map[types.Object]string{}
+				fromModel := map[cellRef]token.Pos{}
+				modelField := map[cellRef]string{}
 				isModelDeref := func(e ast.Expr) (string, bool) {
 					star, ok := ast.Unparen(e).(*ast.StarExpr)
 					if !ok {
@@ -55,9 +55,8 @@ func checkModelBoundsNotOverridden(r *Run, pkgs ...*packages.Package) {
 						return true
 					}
 					for i, lhs := range as.Lhs {
-						if id, ok := lhs.(*ast.Ident); ok {
+						if obj, ok := cellRefOf(info, lhs); ok {
 							if name, is := isModelDeref(as.Rhs[i]); is {
-								obj := info.ObjectOf(id)
 								if _, seen := fromModel[obj]; !seen {
 									fromModel[obj] = as.Pos()
 									modelField[obj] = name
@@ -74,8 +73,8 @@ func checkModelBoundsNotOverridden(r *Run, pkgs ...*packages.Package) {
 						switch t := x.(type) {
 						case *ast.AssignStmt:
 							for i, lhs := range t.Lhs {
-								id, ok := lhs.(*ast.Ident)
-								if !ok || info.ObjectOf(id) != obj || t.Pos() <= readAt {
+								cr, ok := cellRefOf(info, lhs)
+								if !ok || !(cr == obj || (cr.base == obj.base && cr.field == nil)) || t.Pos() <= readAt {
 									continue
 								}
 								if len(t.Lhs) == len(t.Rhs) {
@@ -88,15 +87,15 @@ func checkModelBoundsNotOverridden(r *Run, pkgs ...*packages.Package) {
 								}
 							}
 						case *ast.IncDecStmt:
-							if id, ok := t.X.(*ast.Ident); ok && info.ObjectOf(id) == obj && t.Pos() > readAt && bad == token.NoPos {
+							if cr, ok := cellRefOf(info, t.X); ok && cr == obj && t.Pos() > readAt && bad == token.NoPos {
 								bad = t.Pos()
 							}
 						}
 						return true
 					})
-					construct := funcDeclName(fd) + ":" + obj.Name() + "←" + modelField[obj]
+					construct := funcDeclName(fd) + ":" + obj.String() + "←" + modelField[obj]
 					if bad != token.NoPos {
-						r.Fail(rule, construct, bad, "%s holds the pattern's %s and is assigned again after it was read from the model: the lowering then runs with a bound the query did not state (a lower bound of 0 hops turned into 1 drops the zero-length match) instead of refusing the shape", obj.Name(), modelField[obj])
+						r.Fail(rule, construct, bad, "%s holds the pattern's %s and is assigned again after it was read from the model: the lowering then runs with a bound the query did not state (a lower bound of 0 hops turned into 1 drops the zero-length match) instead of refusing the shape", obj.String(), modelField[obj])
 					} else {
 						r.Pass(rule, construct, readAt, "the bound read from the model is only tested, never replaced")
 					}
